@@ -136,9 +136,40 @@ theorem cross_entropy_vjp (x y : NDArray ℝ) (labels : List Nat) (hx : x.WF) (h
     IsVJPAt (fun z => crossEntropyForward z labels) x y.shape (fun g => crossEntropyBackward g x labels) :=
   Proofs.NL.cross_entropy_vjp x y labels hx h
 
+open Proofs.NL in
+/-- **softmax of a 0-d operand along dim 0 / −1** (accepted, as `np.max` / `np.sum` accept these two int axes on a 0-d
+    array): the value is `1`, the gradient is `0` for every upstream gradient, and that is the VJP -/
+theorem softmax_zero_dim_vjp (a g : NDArray ℝ) (ha : a.WF) (has : a.shape = []) (d : Int) (hd : d = 0 ∨ d = -1) :
+    softmaxForward a d = some ⟨[], [1]⟩ ∧ softmaxBackward g ⟨[], [1]⟩ d = some ⟨[], [0]⟩ ∧
+    IsVJPAt (fun x => softmaxForward x d) a [] (fun g => softmaxBackward g ⟨[], [1]⟩ d) :=
+  ⟨Proofs.NL.softmax_zero_dim a has d hd,
+    Proofs.NL.softmax_zero_dim_grad a _ g has d hd (Proofs.NL.softmax_zero_dim a has d hd),
+    by have h := Proofs.NL.softmax_vjp a _ d ha (Proofs.NL.softmax_zero_dim a has d hd); rwa [has] at h⟩
+
+open Proofs.NL in
+/-- **log_softmax of a 0-d operand along dim 0 / −1**: the value is `0`, the gradient is `0`, and that is the VJP -/
+theorem log_softmax_zero_dim_vjp (a g : NDArray ℝ) (ha : a.WF) (has : a.shape = []) (d : Int) (hd : d = 0 ∨ d = -1) :
+    logSoftmaxForward a d = some ⟨[], [0]⟩ ∧ logSoftmaxBackward g ⟨[], [0]⟩ d = some ⟨[], [0]⟩ ∧
+    IsVJPAt (fun x => logSoftmaxForward x d) a [] (fun g => logSoftmaxBackward g ⟨[], [0]⟩ d) :=
+  ⟨Proofs.NL.log_softmax_zero_dim a has d hd,
+    Proofs.NL.log_softmax_zero_dim_grad a _ g has d hd (Proofs.NL.log_softmax_zero_dim a has d hd),
+    by have h := Proofs.NL.log_softmax_vjp a _ d ha (Proofs.NL.log_softmax_zero_dim a has d hd); rwa [has] at h⟩
+
 /-- non-vacuity: the hypotheses of `softmax_vjp` are met by a concrete 2×2 input -/
 example : ∃ s, softmaxForward (⟨[2, 2], [1, 2, 3, 4]⟩ : NDArray ℝ) 1 = some s := by
-  simp [softmaxForward, normAxis]
+  simp [softmaxForward, normAxis, zeroDimAxis]
+
+/-- … and by a 0-d input with `dim` 0 / −1 (NumPy's reductions accept these two int axes on a 0-d array): there the
+    forward is the constant `1` (`0` for log_softmax) and the backward returns `0` for every upstream gradient -/
+example : softmaxForward (⟨[], [3]⟩ : NDArray ℝ) 0 = some ⟨[], [1]⟩ ∧
+    softmaxBackward (⟨[], [5]⟩ : NDArray ℝ) ⟨[], [1]⟩ 0 = some ⟨[], [0]⟩ :=
+  ⟨Proofs.NL.softmax_zero_dim _ rfl 0 (Or.inl rfl),
+    Proofs.NL.softmax_zero_dim_grad ⟨[], [3]⟩ _ _ rfl 0 (Or.inl rfl) (Proofs.NL.softmax_zero_dim _ rfl 0 (Or.inl rfl))⟩
+example : logSoftmaxForward (⟨[], [3]⟩ : NDArray ℝ) (-1) = some ⟨[], [0]⟩ ∧
+    logSoftmaxBackward (⟨[], [5]⟩ : NDArray ℝ) ⟨[], [0]⟩ (-1) = some ⟨[], [0]⟩ :=
+  ⟨Proofs.NL.log_softmax_zero_dim _ rfl (-1) (Or.inr rfl),
+    Proofs.NL.log_softmax_zero_dim_grad ⟨[], [3]⟩ _ _ rfl (-1) (Or.inr rfl)
+      (Proofs.NL.log_softmax_zero_dim _ rfl (-1) (Or.inr rfl))⟩
 
 /-! ### binary cross-entropies (pointwise in the prediction / logit for a fixed target) -/
 open Proofs.NL in
